@@ -101,16 +101,7 @@ def analyse_run(ctx: Ctx, suite: str, spec: Dict[str, Any], exp: Dict[str, Any],
     t_end: Dict[int, List[int]] = {}
     for pos, (k, i) in enumerate(obs):
         (t_begin if k == "b" else t_end if k == "f" else {}).setdefault(i, []).append(pos)
-    overlapping = False
-    # steps that overlap in time on the same framework (the input class of the known THREADING lost-update finding)
-    open_: Set[int] = set()
-    for k, i in obs:
-        if k == "b":
-            if any(steps[j].get("fw") == steps[i].get("fw") for j in open_):
-                overlapping = True
-            open_.add(i)
-        else:
-            open_.discard(i)
+    overlapping = S.overlap_on_shared_fw(exp, rr.events)  # two feature-group steps open at once on one framework
     fclass = "threading-overlapping-steps-on-shared-cfw" if (mode == "thread" and overlapping) else None
     ok_run = rr.error is None and not rr.timed_out
     # (1) exactly once
